@@ -1,14 +1,14 @@
 """Replay of a failed obligation on the real code.  Run with /verif/.venv/bin/python.
 Exits 1 when the violation reproduces on the tree under /repo, 0 otherwise.
 obligation: C04/stereodescriptors.py:_StereoMixin.invert/AtropBond/p=1/inverse-equality-is-spatial#path0
-invert contract clause inverse-equality-is-spatial fails for AtropBond((None, None, -3, 2, -1, 1),1)
+invert contract clause inverse-equality-is-spatial fails for AtropBond((None, None, 3, 2, None, None),1)
 """
 import sys
 sys.path.insert(0, '/repo/src')
 from stereomolgraph.stereodescriptors import AtropBond
-a = AtropBond((None, None, -3, 2, -1, 1), 1); b = a.invert(); c = b.invert()
+a = AtropBond((None, None, 3, 2, None, None), 1); b = a.invert(); c = b.invert()
 print(a, b, c, a == b)
-ok = (a.atoms, a.parity) == ((None, None, -3, 2, -1, 1), 1) and (c.atoms, c.parity) == (a.atoms, a.parity) and type(c) is type(a)
+ok = (a.atoms, a.parity) == ((None, None, 3, 2, None, None), 1) and (c.atoms, c.parity) == (a.atoms, a.parity) and type(c) is type(a)
 if 1 in (1, -1): ok = ok and (a == b) is True and b.parity == -a.parity and b.atoms == a.atoms
 else: ok = ok and b is a
 sys.exit(0 if ok else 1)
